@@ -9,7 +9,8 @@ Emitted (namespace SpsdkVerif.Generated.DatConsts; types from Base/DatTypes.lean
         - `get_data_format()` (f-string pieces, with / without signature) zipped with the argument list of the
           `pack(...)` call of `export()` / `_get_data_to_sign()`  : List (DatFld × DatArg)
   * `rsaParse`, `eccParseHead/eccParseTail`, `eleParseHead/eleParseTail`
-        - the format used by `parse()` zipped with the unpack *targets*; `*ParseBind` = constructor keyword -> local
+        - the format used by `parse()` zipped with the unpack *targets*, each target resolved to the constructor attribute
+          it is passed to (class `Canon`: local variable names do not matter); `*ParseFields` = keywords of `cls(...)`
   * `flagsExport/flagsValidate/flagsUsed/flagsCnt/flagsMarker` - RotMetaFlags.export/validate/parse translated to Lean
           by tools/extract/py2lean.py after rewriting `self.x` to a parameter `x` (documented below)
   * `rotMetaRsaSize/Count/Item`                              - literals of RotMetaRSA.export/parse
@@ -69,10 +70,94 @@ def _class_const(cls, name):
     return None
 
 
-def _str_pieces(node):
-    """Flatten a `"<" + "2H" + f"{x}s" + ...` expression into a list of pieces: str or ('expr', source)."""
+class Canon:
+    """Makes the expressions of one function independent of the names of its locals.
+
+    * a local assigned exactly once by a plain `x = expr` is replaced by (the canonical form of) `expr`,
+    * a local that is a target of a tuple-unpacking assignment is replaced by the attribute it ends up in: the keyword
+      of the `cls(...)` call of the `return` statement it is passed to (directly or through `X.parse(local)`), or
+      `major` / `minor` for the arguments of `ProtocolVersion.from_version(a, b)`; rendered as `«field»`.
+    Renaming a local variable therefore does not change what is generated."""
+
+    def __init__(self, fn, kwmap):
+        self.assign1, self.sem = {}, {}
+        if fn is None:
+            return
+        counts, tuple_targets = {}, set()
+        for n in ast.walk(fn):
+            if isinstance(n, ast.Assign):
+                for t in n.targets:
+                    if isinstance(t, ast.Name):
+                        counts[t.id] = counts.get(t.id, 0) + 1
+                        self.assign1[t.id] = n.value
+                    elif isinstance(t, (ast.Tuple, ast.List)):
+                        for e in t.elts:
+                            if isinstance(e, ast.Name):
+                                tuple_targets.add(e.id)
+            elif isinstance(n, (ast.AugAssign, ast.For)):
+                t = n.target
+                if isinstance(t, ast.Name):
+                    counts[t.id] = counts.get(t.id, 0) + 2
+        self.assign1 = {k: v for k, v in self.assign1.items() if counts.get(k) == 1 and k not in tuple_targets}
+        for n in ast.walk(fn):
+            if isinstance(n, ast.Call):
+                f = ast.unparse(n.func)
+                if f.endswith("from_version") and len(n.args) == 2:
+                    for a, fld in zip(n.args, ("major", "minor")):
+                        if isinstance(a, ast.Name) and a.id in tuple_targets:
+                            self.sem.setdefault(a.id, fld)
+                if f == "cls":
+                    for kw in n.keywords:
+                        v = kw.value
+                        if isinstance(v, ast.Call) and isinstance(v.func, ast.Attribute) and v.func.attr == "parse" and len(v.args) == 1:
+                            v = v.args[0]
+                        if isinstance(v, ast.Name) and kw.arg in kwmap and (v.id in tuple_targets or v.id in self.assign1):
+                            self.sem.setdefault(v.id, kwmap[kw.arg])
+        # a local with a meaning is never inlined
+        for k in self.sem:
+            self.assign1.pop(k, None)
+
+    def node(self, e, depth=0):
+        c = self
+
+        class T(ast.NodeTransformer):
+            def visit_Name(self, n):
+                if isinstance(n.ctx, ast.Load):
+                    if n.id in c.sem:
+                        return ast.Name(id="«%s»" % c.sem[n.id], ctx=n.ctx)
+                    if n.id in c.assign1 and depth < 5:
+                        return c.node(copy.deepcopy(c.assign1[n.id]), depth + 1)
+                return n
+        return T().visit(copy.deepcopy(e))
+
+    def text(self, e):
+        return ast.unparse(self.node(e))
+
+    def field(self, e):
+        """Lean DatArg of an unpack target."""
+        if isinstance(e, ast.Name):
+            if e.id == "_":
+                return ".skip"
+            f = self.sem.get(e.id)
+            return FIELD_TOK.get(f, ".unknown")
+        return ".unknown"
+
+
+FIELD_TOK = {"major": ".major", "minor": ".minor", "socc": ".socc", "uuid": ".uuid", "rot_meta": ".rotMeta", "dck_pub": ".dck",
+             "cc_socu": ".ccSocu", "cc_vu": ".ccVu", "cc_beacon": ".beacon", "rot_pub": ".rotPub", "signature": ".sig",
+             "rotid_rkh_revocation": ".revocation", "rotid_rkth_hash": ".rkthHash", "cc_soc_pinned": ".socPinned",
+             "cc_soc_default": ".socDefault", "challenge": ".challenge"}
+DC_KW = {k: k for k in ("socc", "uuid", "rot_meta", "dck_pub", "cc_socu", "cc_vu", "cc_beacon", "rot_pub", "signature")}
+DAC_KW = {k: k for k in ("socc", "uuid", "rotid_rkh_revocation", "rotid_rkth_hash", "cc_soc_pinned", "cc_soc_default", "cc_vu", "challenge")}
+NOCANON = Canon(None, {})
+
+
+def _str_pieces(node, canon=NOCANON):
+    """Flatten a `"<" + "2H" + f"{x}s" + ...` expression into a list of pieces: str or ('expr', canonical source)."""
+    if isinstance(node, ast.Name) and node.id in canon.assign1:
+        return _str_pieces(canon.assign1[node.id], canon)
     if isinstance(node, ast.BinOp) and isinstance(node.op, ast.Add):
-        a, b = _str_pieces(node.left), _str_pieces(node.right)
+        a, b = _str_pieces(node.left, canon), _str_pieces(node.right, canon)
         return None if a is None or b is None else a + b
     if isinstance(node, ast.Constant) and isinstance(node.value, str):
         return [node.value]
@@ -82,22 +167,36 @@ def _str_pieces(node):
             if isinstance(v, ast.Constant):
                 out.append(str(v.value))
             elif isinstance(v, ast.FormattedValue):
-                out.append(("expr", ast.unparse(v.value)))
+                out.append(("expr", canon.text(v.value)))
             else:
                 return None
         return out
     return None
 
 
+# canonical width expressions (locals already resolved by `Canon`: «x» = the local that ends up in attribute x)
 W_EXPR = {
-    "key_size": ".rsaKey", "signature_size": ".rsaSig", "len(self.rot_meta)": ".lenRotMeta",
+    "len(self.rot_meta)": ".lenRotMeta",
     "self.rot_pub.coordinate_size * 2": ".rotCoord2", "self.dck_pub.coordinate_size * 2": ".dckCoord2",
-    "len(self.export_dck_pub())": ".lenDck", "len(self.signature)": ".lenSig", "rot_meta.HASH_SIZE * 2": ".hashSize2",
-    "len(rot_pub.export())": ".lenRotPub", "rot_pub.signature_size": ".rotSigSize", "hash_length": ".hashLength",
+    "len(self.export_dck_pub())": ".lenDck", "len(self.signature)": ".lenSig",
+    "«rot_meta».HASH_SIZE * 2": ".hashSize2", "len(«rot_pub».export())": ".lenRotPub", "«rot_pub».signature_size": ".rotSigSize",
+    "cls.get_rot_hash_length(DebugCredentialCertificate.get_family_ambassador(«socc»), «major», «minor»)": ".hashLength",
 }
+UNKNOWN_W = []
 
 
-def _fields(pieces):
+def _width(expr, part):
+    """Lean DatW of a canonical width expression; `{..}[version.minor]` dictionaries become .rsaKey (in the part of the
+    format that is always present) / .rsaSig (in the signature part)."""
+    if expr in W_EXPR:
+        return W_EXPR[expr]
+    if re.fullmatch(r"\{[0-9:, ]*\}\[version\.minor\]", expr):
+        return ".rsaKey" if part == "base" else ".rsaSig"
+    UNKNOWN_W.append(expr)
+    return ".unknown"
+
+
+def _fields(pieces, part="base"):
     """struct format pieces -> list of Lean DatFld terms (little endian only; anything else -> .unknown)."""
     if pieces is None:
         return [".unknown"]
@@ -110,9 +209,11 @@ def _fields(pieces):
         else:
             toks += p
     out = []
-    if not toks.startswith("<"):
+    if toks.startswith("<"):
+        toks = toks[1:]
+    elif part == "base":
         return [".unknown"]
-    i = 1
+    i = 0
     while i < len(toks):
         m = re.match(r"(\d+|\{\d+\})?([HLs])", toks[i:])
         if not m:
@@ -123,7 +224,7 @@ def _fields(pieces):
             if cnt is None:
                 out.append("(.bytes (.fixed 1))")
             elif cnt.startswith("{"):
-                out.append("(.bytes %s)" % W_EXPR.get(exprs[int(cnt[1:-1])], ".unknown"))
+                out.append("(.bytes %s)" % _width(exprs[int(cnt[1:-1])], part))
             else:
                 out.append("(.bytes (.fixed %d))" % int(cnt))
         else:
@@ -137,14 +238,9 @@ ARG_EXPR = {
     "self.version.major": ".major", "self.version.minor": ".minor", "self.socc": ".socc", "self.uuid": ".uuid",
     "self.rot_meta.export()": ".rotMeta", "self.export_dck_pub()": ".dck", "self.cc_socu": ".ccSocu", "self.cc_vu": ".ccVu",
     "self.cc_beacon": ".beacon", "self.export_rot_pub()": ".rotPub", "self.signature": ".sig",
-    # unpack targets / locals of the parse functions
-    "_": ".skip", "version_major": ".major", "version_minor": ".minor", "socc": ".socc", "uuid": ".uuid", "rot_meta": ".rotMeta",
-    "dck_pub": ".dck", "cc_socu": ".ccSocu", "cc_vu": ".ccVu", "cc_beacon": ".beacon", "beacon": ".beacon", "rot_pub": ".rotPub",
-    "signature": ".sig",
     # DAC
     "self.rotid_rkh_revocation": ".revocation", "self.rotid_rkth_hash": ".rkthHash", "self.cc_soc_pinned": ".socPinned",
-    "self.cc_soc_default": ".socDefault", "self.challenge": ".challenge", "rotid_rkh_revocation": ".revocation",
-    "rotid_rkth_hash": ".rkthHash", "cc_soc_pinned": ".socPinned", "cc_soc_default": ".socDefault", "challenge": ".challenge",
+    "self.cc_soc_default": ".socDefault", "self.challenge": ".challenge",
     # DAR
     "self.debug_credential.export()": ".dcExport", "self.auth_beacon": ".authBeacon", "self.dac.uuid": ".dacUuid",
     "self.dac.challenge": ".dacChallenge", "self._get_signature()": ".signature",
@@ -164,22 +260,32 @@ def _zip(flds, args):
 
 
 def data_format(cls):
-    """(pieces without signature, pieces of the signature part, {name: dict literal}) of `get_data_format`."""
+    """(pieces always present, pieces of the signature part, [dict literal of the key width, of the signature width]) of
+    `get_data_format`: the returned local, its first assignment and its `+=` under `if include_signature`."""
     fn = _fun(cls, "get_data_format")
-    base = sig = None
-    dicts = {}
     if fn is None:
-        return None, None, dicts
+        return None, None, [None, None]
+    canon = Canon(fn, {})
+    var = None
     for n in ast.walk(fn):
-        if isinstance(n, ast.Assign) and len(n.targets) == 1 and isinstance(n.targets[0], ast.Name):
-            t = n.targets[0].id
-            if t == "data_format":
-                base = _str_pieces(n.value)
-            elif isinstance(n.value, ast.Subscript) and isinstance(n.value.value, ast.Dict):
-                dicts[t] = (_lit(n.value.value), ast.unparse(n.value.slice))
-        if isinstance(n, ast.AugAssign) and isinstance(n.target, ast.Name) and n.target.id == "data_format":
-            sig = _str_pieces(n.value)
-    return base, sig, dicts
+        if isinstance(n, ast.Return) and isinstance(n.value, ast.Name):
+            var = n.value.id
+    base = sig = None
+    for n in ast.walk(fn):
+        if isinstance(n, ast.Assign) and len(n.targets) == 1 and isinstance(n.targets[0], ast.Name) and n.targets[0].id == var and base is None:
+            base = _str_pieces(n.value, canon)
+        if isinstance(n, ast.AugAssign) and isinstance(n.target, ast.Name) and n.target.id == var:
+            sig = _str_pieces(n.value, canon)
+
+    def dict_of(pieces):
+        ds = {p[1] for p in (pieces or []) if isinstance(p, tuple) and re.fullmatch(r"\{[0-9:, ]*\}\[version\.minor\]", p[1])}
+        if len(ds) != 1:
+            return None
+        try:
+            return ast.literal_eval(ds.pop().rsplit("[", 1)[0])
+        except (ValueError, SyntaxError):
+            return None
+    return base, sig, [dict_of(base), dict_of(sig)]
 
 
 def pack_args(fn):
@@ -192,49 +298,33 @@ def pack_args(fn):
     return None
 
 
-def unpack_targets(fn, fmt_pred):
-    """targets of `(a, b, ...) = unpack_from(<fmt>, ...)` whose format expression satisfies `fmt_pred(source)`."""
+def unpack_calls(fn, canon):
+    """[(format pieces | ('method', name), [target fields])] of every `targets = unpack_from(fmt, ...)` of `fn`, in order."""
+    out = []
     if fn is None:
-        return None
+        return out
     for n in ast.walk(fn):
         if isinstance(n, ast.Assign) and isinstance(n.value, ast.Call) and isinstance(n.value.func, ast.Name) \
-                and n.value.func.id == "unpack_from" and n.value.args and fmt_pred(ast.unparse(n.value.args[0])):
+                and n.value.func.id == "unpack_from" and n.value.args:
             t = n.targets[0]
-            elts = t.elts if isinstance(t, ast.Tuple) else [t]
-            return [_arg(e) for e in elts]
-    return None
+            elts = t.elts if isinstance(t, (ast.Tuple, ast.List)) else [t]
+            f = n.value.args[0]
+            if isinstance(f, ast.Call) and isinstance(f.func, ast.Attribute):
+                fmt = ("method", f.func.attr)
+            else:
+                fmt = _str_pieces(f, canon)
+            out.append((fmt, [canon.field(e) for e in elts], n.lineno))
+    out.sort(key=lambda x: x[2])
+    return out
 
 
-def local_str(fn, name):
-    """pieces of the string expression assigned to local `name` in `fn`."""
-    if fn is None:
-        return None
-    for n in ast.walk(fn):
-        if isinstance(n, ast.Assign) and len(n.targets) == 1 and isinstance(n.targets[0], ast.Name) and n.targets[0].id == name:
-            return _str_pieces(n.value)
-    return None
-
-
-CTOR_KW = {"socc": ".socc", "uuid": ".uuid", "rot_meta": ".rotMeta", "dck_pub": ".dck", "cc_socu": ".ccSocu", "cc_vu": ".ccVu",
-           "cc_beacon": ".beacon", "rot_pub": ".rotPub", "signature": ".sig"}
-
-
-def ctor_bind(fn):
-    """`return cls(socc=socc, dck_pub=PublicKey.parse(dck_pub), ...)` -> [(field, local it is built from)]."""
+def ctor_fields(fn, kwmap):
+    """keywords of the `cls(...)` call that `fn` returns, as fields, in source order."""
     if fn is None:
         return "[]"
     for n in ast.walk(fn):
         if isinstance(n, ast.Return) and isinstance(n.value, ast.Call) and isinstance(n.value.func, ast.Name) and n.value.func.id == "cls":
-            out = []
-            for kw in n.value.keywords:
-                if kw.arg not in CTOR_KW:
-                    continue
-                v = kw.value
-                # X.parse(local) wrappers
-                if isinstance(v, ast.Call) and isinstance(v.func, ast.Attribute) and v.func.attr == "parse" and len(v.args) == 1:
-                    v = v.args[0]
-                out.append(f"({CTOR_KW[kw.arg]}, {_arg(v)})")
-            return "[" + ", ".join(out) + "]"
+            return "[" + ", ".join(FIELD_TOK.get(kwmap.get(kw.arg), ".unknown") for kw in n.value.keywords if kw.arg != "version") + "]"
     return "[]"
 
 
@@ -484,6 +574,7 @@ def _b(x):
 
 # ------------------------------------------------------------------------------------------------ main
 def gen_DatConsts():
+    del UNKNOWN_W[:]
     meta = {"functions": {}, "sources": [DC, DAC, DAR, "spsdk/data/devices/*/database.yaml"]}
     out = ["import SpsdkVerif.Base.Py", "import SpsdkVerif.Base.DatTypes", "", "namespace SpsdkVerif.Generated.DatConsts", "open SpsdkVerif", ""]
     tree = parse(DC)
@@ -510,45 +601,43 @@ def gen_DatConsts():
     # ---- credential classes
     rsa, ecc, ele = (_cls(tree, n) for n in ("DebugCredentialCertificateRsa", "DebugCredentialCertificateEcc", "DebugCredentialEdgeLockEnclave"))
     rbase, rsig, rdicts = data_format(rsa)
-    out.append(f"def rsaKeySize : List (Nat × Nat) := {pairs(rdicts.get('key_size', (None, ''))[0])}  -- get_data_format: key_size by version.minor")
-    out.append(f"def rsaSigSize : List (Nat × Nat) := {pairs(rdicts.get('signature_size', (None, ''))[0])}  -- get_data_format: signature_size by version.minor")
-    meta["rsa_size_index"] = sorted({v[1] for v in rdicts.values()})
-    out.append(f"def rsaSizeIndexedByMinor : Bool := {_b(all(v[1] == 'version.minor' for v in rdicts.values()) and len(rdicts) == 2)}")
+    out.append(f"def rsaKeySize : List (Nat × Nat) := {pairs(rdicts[0])}  -- get_data_format: width of the two key fields by version.minor")
+    out.append(f"def rsaSigSize : List (Nat × Nat) := {pairs(rdicts[1])}  -- get_data_format: width of the signature field by version.minor")
+    out.append(f"def rsaSizeIndexedByMinor : Bool := {_b(rdicts[0] is not None and rdicts[1] is not None)}")
     out.append(f"def eccCoordSize : List (Nat × Nat) := {pairs(_class_const(ecc, 'COORDINATE_SIZE'))}  -- DebugCredentialCertificateEcc.COORDINATE_SIZE")
     rme = _cls(tree, "RotMetaEcc")
     out.append(f"def eccHashBits : List (Nat × Nat) := {pairs(_class_const(rme, 'HASH_SIZES'))}  -- RotMetaEcc.HASH_SIZES (coordinate size -> SHA-2 width)")
     out.append("")
 
     def class_layout(pfx, cls, base_pieces, sig_pieces):
-        full = None if base_pieces is None or sig_pieces is None else base_pieces + sig_pieces
+        full = _fields(base_pieces) + _fields(sig_pieces, "sig") if base_pieces is not None and sig_pieces is not None else [".unknown"]
         exp_args = pack_args(_fun(cls, "export")) or [".unknown"]
         sgn_args = pack_args(_fun(cls, "_get_data_to_sign")) or [".unknown"]
-        out.append(f"def {pfx}Export : List (DatFld × DatArg) := {_zip(_fields(full), exp_args)}")
+        out.append(f"def {pfx}Export : List (DatFld × DatArg) := {_zip(full, exp_args)}")
         out.append(f"def {pfx}Sign : List (DatFld × DatArg) := {_zip(_fields(base_pieces), sgn_args)}")
         meta[pfx + "_format"] = {"base": repr(base_pieces), "sig": repr(sig_pieces)}
+        return full
 
-    class_layout("rsa", rsa, rbase, rsig)
+    rfull = class_layout("rsa", rsa, rbase, rsig)
     ebase, esig, _ = data_format(ecc)
     class_layout("ecc", ecc, ebase, esig)
     lbase, lsig, _ = data_format(ele)
     class_layout("ele", ele, lbase, lsig)
     out.append("")
 
-    # ---- parse side
+    # ---- parse side (locals resolved to the constructor attribute they feed: see `Canon`)
     rparse = _fun(rsa, "parse")
-    rt = unpack_targets(rparse, lambda s: "get_data_format" in s) or [".unknown"]
-    rfull = None if rbase is None or rsig is None else rbase + rsig
-    out.append(f"def rsaParse : List (DatFld × DatArg) := {_zip(_fields(rfull), rt)}  -- unpack_from(cls.get_data_format(version), data) targets")
-    out.append(f"def rsaParseBind : List (DatArg × DatArg) := {ctor_bind(rparse)}")
+    calls = [c for c in unpack_calls(rparse, Canon(rparse, DC_KW)) if c[0] == ("method", "get_data_format")]
+    rt = calls[0][1] if len(calls) == 1 else [".unknown"]
+    out.append(f"def rsaParse : List (DatFld × DatArg) := {_zip(rfull, rt)}  -- unpack_from(cls.get_data_format(version), data) targets")
+    out.append(f"def rsaParseFields : List DatArg := {ctor_fields(rparse, DC_KW)}  -- keywords of the returned cls(...) call")
     for pfx, cls in (("ecc", ecc), ("ele", ele)):
         fn = _fun(cls, "parse")
-        head = local_str(fn, "format_head")
-        tail = local_str(fn, "format_tail")
-        ht = unpack_targets(fn, lambda s: s == "format_head") or [".unknown"]
-        tt = unpack_targets(fn, lambda s: s == "format_tail") or [".unknown"]
+        calls = unpack_calls(fn, Canon(fn, DC_KW))
+        (head, ht, _), (tail, tt, _) = calls if len(calls) == 2 and all(isinstance(c[0], list) for c in calls) else ((None, [".unknown"], 0),) * 2
         out.append(f"def {pfx}ParseHead : List (DatFld × DatArg) := {_zip(_fields(head), ht)}")
         out.append(f"def {pfx}ParseTail : List (DatFld × DatArg) := {_zip(_fields(tail), tt)}")
-        out.append(f"def {pfx}ParseBind : List (DatArg × DatArg) := {ctor_bind(fn)}")
+        out.append(f"def {pfx}ParseFields : List DatArg := {ctor_fields(fn, DC_KW)}")
         meta[pfx + "_parse"] = {"head": repr(head), "tail": repr(tail)}
     out.append("")
 
@@ -637,9 +726,8 @@ def gen_DatConsts():
     dtree = parse(DAC)
     dcls = _cls(dtree, "DebugAuthenticationChallenge")
     dparse = _fun(dcls, "parse")
-    head, tail = local_str(dparse, "format_head"), local_str(dparse, "format_tail")
-    ht = unpack_targets(dparse, lambda s: s == "format_head") or [".unknown"]
-    tt = unpack_targets(dparse, lambda s: s == "format_tail") or [".unknown"]
+    calls = unpack_calls(dparse, Canon(dparse, DAC_KW))
+    (head, ht, _), (tail, tt, _) = calls if len(calls) == 2 and all(isinstance(c[0], list) for c in calls) else ((None, [".unknown"], 0),) * 2
     out.append(f"def dacHead : List (DatFld × DatArg) := {_zip(_fields(head), ht)}")
     out.append(f"def dacTail : List (DatFld × DatArg) := {_zip(_fields(tail), tt)}")
     meta["dac_parse"] = {"head": repr(head), "tail": repr(tail)}
@@ -739,6 +827,8 @@ def gen_DatConsts():
     meta["families"] = sorted({r[0] for r in rows})
     out.append("")
     out.append("end SpsdkVerif.Generated.DatConsts")
+    if UNKNOWN_W:
+        meta["unknown_width_expressions"] = sorted(set(UNKNOWN_W))
     emit("DatConsts", "\n".join(out) + "\n", meta)
 
 
